@@ -253,11 +253,8 @@ func scVoutBoundary(w *World) {
 		// (i) the parent is pooled
 		p := w.spend([]*chainkit.Coin{coin()}, n, 6000, nil, false)
 		w.expect("parent-"+tag, w.submit(p, "net"), 0)
-		for vi, v := range voutsBeyond {
+		for _, v := range voutsBeyond {
 			for _, m := range modes {
-				if vi > 0 && m != modes[(vi+n)%3] {
-					continue // (every path for the exact boundary, one path each for the others)
-				}
 				ch := w.spend([]*chainkit.Coin{ghostAt(p.outs[0], v.off(n))}, 1, fee(), nil, false)
 				w.expect("pooled-parent-"+tag+"-vout-"+v.name+"-"+m, w.submit(ch, m), txpool.TX_REJECTED_BAD_INPUT)
 			}
